@@ -194,7 +194,8 @@ theorem end_of_side_marker (w : Tape.World) (src : Str) (rest : List Str) (st : 
 /-- **C10 (the per-side sections of the report list files that the image holds on that side)**:
     `storedOn 0 (batchEvents …)` is the list of (side of the section, announcement) pairs of the
     create/add report, in order; every pair is honoured by the image the batch leaves: side `k` holds
-    the file, in a slot that held nothing before, with the announced size and block count -/
+    the file, in a slot that held nothing before, with the announced size and block count, under the
+    entry bytes the tool writes for the announced name and extension (`IsRecordOf`) -/
 theorem report_sections_match_image (w : Tape.World) (verbose : Bool) (img : Image) (srcs : List Str)
     (himg : ImgOk img) (hs : ∀ src ∈ srcs, CleanSrc src) :
     ∃ st, performCore w verbose img srcs = .ok st ∧ ImgOk st.img
